@@ -349,6 +349,9 @@ func GenSingle(t *rapid.T, op string, cfg SingleCfg) Program {
 		base := shape(1)
 		n.I = rapid.IntRange(0, len(base)-1).Draw(t, "dim")
 		cnt := rapid.IntRange(2, 5).Draw(t, "count")
+		if rapid.IntRange(0, 7).Draw(t, "manyoperands") == 0 {
+			cnt = rapid.IntRange(6, 18).Draw(t, "countmany") // incl. many repeats of one operand
+		}
 		for len(n.In) < cnt {
 			if len(n.In) > 0 && rapid.IntRange(0, 3).Draw(t, "reuse") == 0 {
 				n.In = append(n.In, n.In[rapid.IntRange(0, len(n.In)-1).Draw(t, "which")])
